@@ -436,6 +436,9 @@ func c05RandRun(r *rng) c05Run {
 	if r.chance(12) {
 		return c05RetryRun(r)
 	}
+	if r.chance(14) { // marginal ticks at prices with a non-integer inverse (c05_marginal_test.go)
+		return c05MarginalRun(r)
+	}
 	prec := int(r.pickI(1, 2, 3, 3, 4))
 	base := sdk.MustNewDecFromStr(c05BasePrices[r.intn(len(c05BasePrices))])
 	if r.chance(35) { // the region where quote amounts round to zero
@@ -495,7 +498,7 @@ func TestC05(t *testing.T) {
 	ncases := envInt("VERIF_CASES", 2000)
 	only := envInt("VERIF_CASE", -1)
 	ci := 0
-	for _, run := range c05Corpus() {
+	for _, run := range append(c05Corpus(), c05MarginalCorpus()...) {
 		if only < 0 || only == ci {
 			c05Dump(tr, ci, run)
 		}
@@ -524,10 +527,28 @@ func TestC05Exhaustive(t *testing.T) {
 	only := envInt("VERIF_CASE", -1)
 	prec := 1
 	ticks := []sdk.Dec{sdk.MustNewDecFromStr("0.48"), sdk.MustNewDecFromStr("0.49"), sdk.MustNewDecFromStr("0.50"), sdk.MustNewDecFromStr("0.51")}
+	// VERIF_C05_EXH_TICKS=low: four ticks whose inverses lie strictly between 3 and 4 (amounts 1..6 straddle the
+	// amount worth one quote coin); VERIF_C05_EXH_KIND=single: OrderBook.MatchAtSinglePrice at each tick (the
+	// no-last-price entry point) instead of Match with the tick as last price; both: one case of each kind
+	if os.Getenv("VERIF_C05_EXH_TICKS") == "low" {
+		ticks = []sdk.Dec{sdk.MustNewDecFromStr("0.30"), sdk.MustNewDecFromStr("0.31"), sdk.MustNewDecFromStr("0.32"), sdk.MustNewDecFromStr("0.33")}
+	}
+	kinds := []string{"match"}
+	switch os.Getenv("VERIF_C05_EXH_KIND") {
+	case "single":
+		kinds = []string{"single"}
+	case "both":
+		kinds = []string{"match", "single"}
+	}
+	// VERIF_C05_EXH_AMAX (default 6): amounts 1..AMAX; VERIF_C05_EXH_NT (default 4): the first NT of the ticks
+	amax := envInt("VERIF_C05_EXH_AMAX", 6)
+	if nt := envInt("VERIF_C05_EXH_NT", 4); nt >= 1 && nt < len(ticks) {
+		ticks = ticks[:nt]
+	}
 	type pa struct{ p, a int }
 	var opts []pa
-	for p := 0; p < 4; p++ {
-		for a := 1; a <= 6; a++ {
+	for p := 0; p < len(ticks); p++ {
+		for a := 1; a <= amax; a++ {
 			opts = append(opts, pa{p, a})
 		}
 	}
@@ -566,11 +587,13 @@ func TestC05Exhaustive(t *testing.T) {
 				specs = append(specs, c05Spec{buy: false, price: ticks[x.p], amt: amt, offer: amt, batch: 1, id: id})
 				id++
 			}
-			for lp := 0; lp < 4; lp++ {
-				if only < 0 || only == ci {
-					c05Dump(tr, ci, c05Run{kind: "match", specs: specs, price: ticks[lp], prec: prec})
+			for lp := 0; lp < len(ticks); lp++ {
+				for _, kind := range kinds {
+					if only < 0 || only == ci {
+						c05Dump(tr, ci, c05Run{kind: kind, specs: specs, price: ticks[lp], prec: prec})
+					}
+					ci++
 				}
-				ci++
 			}
 		}
 	}
